@@ -40,30 +40,30 @@ theorem convertChewing_shape {pick : Nat → List Path → Nat} {d : Dict} {stra
     · cases h
 
 theorem convertChewing_inv1 {pick : Nat → List Path → Nat} {d : Dict} {strat : Strategy} {c : Composition}
-    {alts : List (List Interval)} (hc : CompValid c) (hd : NoEmptyKey d)
+    {alts : List (List Interval)} (hc : CompValid c)
     (h : convertChewing pick d strat c = .ok alts) :
     ∀ alt ∈ alts, IvChain 0 c.symbols.length alt ∧ ∀ iv ∈ alt, IvInv1 d strat c iv := by
   intro alt halt
   rcases convertChewing_shape h alt halt with ⟨h0, rfl⟩ | ⟨es, path, hes, hchain, rfl⟩
   · exact ⟨h0.symm, fun _ hm => by cases hm⟩
   · have hedge := fun e he => findIntervals_edge hes (edge := e) he
-    have hlt : ∀ e ∈ es, e.start < e.stop := fun e he => (hedge e he).1.lt hd hc (hedge e he).2.2.1
+    have hlt : ∀ e ∈ es, e.start < e.stop := fun e he => (hedge e he).1.lt
     refine gluePath_spec (fun a b ha hb pa pb hg hm la lb => inv1_merge a b ha hb pa pb hg hm la lb)
       (hchain.toIvChain hlt) ?_
     intro iv hiv
     obtain ⟨e, he, rfl⟩ := List.mem_map.mp hiv
     have hE := hchain.mem he
-    exact edge_inv1 (hedge e hE).1 (hlt e hE) (hedge e hE).2.2.2
+    exact edge_inv1 (hedge e hE).1 (hlt e hE) (hedge e hE).2.2.2 hc
 
 theorem convertChewing_inv2 {pick : Nat → List Path → Nat} {d : Dict} {strat : Strategy} {c : Composition}
-    {alts : List (List Interval)} (hc : CompValid c) (hd : NoEmptyKey d) (hw : WellFormed d)
+    {alts : List (List Interval)} (hc : CompValid c) (hw : WellFormed d) (hh : HasWord d strat c)
     (h : convertChewing pick d strat c = .ok alts) :
     ∀ alt ∈ alts, ∀ iv ∈ alt, IvInv2 c iv := by
   intro alt halt
   rcases convertChewing_shape h alt halt with ⟨h0, rfl⟩ | ⟨es, path, hes, hchain, rfl⟩
   · exact fun _ hm => by cases hm
   · have hedge := fun e he => findIntervals_edge hes (edge := e) he
-    have hlt : ∀ e ∈ es, e.start < e.stop := fun e he => (hedge e he).1.lt hd hc (hedge e he).2.2.1
+    have hlt : ∀ e ∈ es, e.start < e.stop := fun e he => (hedge e he).1.lt
     have := gluePath_spec (P := fun iv => IvInv1 d strat c iv ∧ IvInv2 c iv) (c := c)
       (fun a b ha hb pa pb hg hm la lb =>
         ⟨inv1_merge a b ha.1 hb.1 pa pb hg hm la lb, inv2_merge hc a b ha hb hm la lb⟩)
@@ -71,8 +71,27 @@ theorem convertChewing_inv2 {pick : Nat → List Path → Nat} {d : Dict} {strat
         intro iv hiv
         obtain ⟨e, he, rfl⟩ := List.mem_map.mp hiv
         have hE := hchain.mem he
-        exact ⟨edge_inv1 (hedge e hE).1 (hlt e hE) (hedge e hE).2.2.2,
-          edge_inv2 (hedge e hE).1 (hlt e hE) (hedge e hE).2.2.2 hc hw⟩)
+        exact ⟨edge_inv1 (hedge e hE).1 (hlt e hE) (hedge e hE).2.2.2 hc,
+          edge_inv2 (hedge e hE).1 (hlt e hE) (hedge e hE).2.2.2 hc hw hh⟩)
     exact fun iv hiv => (this.2 iv hiv).2
+
+/-- the exact text shape of every interval, with or without a word per syllable -/
+theorem convertChewing_inv3 {pick : Nat → List Path → Nat} {d : Dict} {strat : Strategy} {c : Composition}
+    {alts : List (List Interval)} (hc : CompValid c) (hw : WellFormed d)
+    (h : convertChewing pick d strat c = .ok alts) :
+    ∀ alt ∈ alts, ∀ iv ∈ alt, IvInv3 d strat c iv := by
+  intro alt halt
+  rcases convertChewing_shape h alt halt with ⟨h0, rfl⟩ | ⟨es, path, hes, hchain, rfl⟩
+  · exact fun _ hm => by cases hm
+  · have hedge := fun e he => findIntervals_edge hes (edge := e) he
+    have hlt : ∀ e ∈ es, e.start < e.stop := fun e he => (hedge e he).1.lt
+    have := gluePath_spec (P := fun iv => IvInv3 d strat c iv) (c := c)
+      (fun a b ha hb _ _ hg hm la lb => inv3_merge a b ha hb hg hm la lb)
+      (hchain.toIvChain hlt) (by
+        intro iv hiv
+        obtain ⟨e, he, rfl⟩ := List.mem_map.mp hiv
+        have hE := hchain.mem he
+        exact edge_inv3 (hedge e hE).1 (hlt e hE) (hedge e hE).2.2.2 hc hw)
+    exact this.2
 
 end Chewing.Conv
